@@ -453,7 +453,23 @@ func (g *jsGen) expr(d int) string {
 		return "(" + op + g.paren(g.expr(d+1)) + ")"
 	case 14, 15:
 		c, a, b := g.expr(d+1), g.expr(d+1), g.expr(d+1)
-		switch r.Intn(12) {
+		switch r.Intn(14) {
+		case 12, 13:
+			// null tests whose nullish branch is a literal null/undefined, applied to a value that IS nullish half of the
+			// time (round-4 seed: `a==null?null:a.b` must not become `a?.b`, which yields undefined)
+			t := "t" + g.nextSite()
+			lit := r.Pick([]string{"null", "null", "undefined", "void 0"})
+			acc := r.Pick([]string{t + ".a", t + ".a.b", t + "[0]", t + ".a(" + g.number() + ")", t + "[\"a\"].b"})
+			test := r.Pick([]string{
+				t + "==null?" + lit + ":" + acc,
+				t + "!=null?" + acc + ":" + lit,
+				t + "===null||" + t + "===undefined?" + lit + ":" + acc,
+				t + "!==null&&" + t + "!==void 0?" + acc + ":" + lit,
+				"null==" + t + "?" + lit + ":" + acc,
+				t + "===undefined||" + t + "===null?" + lit + ":" + acc,
+			})
+			arg := r.Pick([]string{"null", "undefined", "void 0", "{a:{b:1}}", "[[2]]", "{a(){return{b:3}}}", g.someVar(false)})
+			return "((" + t + ")=>(" + test + "))(" + arg + ")"
 		case 8:
 			// unparenthesised conditional / assignment / arrow as the true or false body
 			v := g.someVar(false)
@@ -953,6 +969,21 @@ func (g *jsGen) stmt() string {
 			// string-literal index convertible to dot form followed by a parenthesised `in` inside a for initialiser
 			w := g.declare("var")
 			return "for(var " + v + "=GL[\"length\"]-2," + w + "=(\"a\" in {a:1});" + v + "<2;" + v + "++){h(" + g.nextSite() + "," + w + ");" + g.stmt() + "}"
+		}
+		if r.Chance(1, 3) {
+			// an arrow function whose (expression or return-only) body has an unparenthesised `in`, declared or assigned
+			// right before a for statement: statement merging moves it into the for initialiser, where the body still
+			// needs its parentheses (round-4 seed)
+			f := g.declare("var")
+			g.freeze(f)
+			p := "q" + g.nextSite()
+			body := r.Pick([]string{p + " in {a:1}", "{return " + p + " in {a:1}}", "\"a\" in " + p, "{return \"b\" in " + p + "}", p + " in {a:1}?1:2"})
+			argv := r.Pick([]string{"\"a\"", "\"b\"", "{a:1}", "{}"})
+			if strings.Contains(body, "in "+p) {
+				argv = r.Pick([]string{"{a:1}", "{b:2}", "[]"})
+			}
+			decl := r.Pick([]string{"var " + f + "=" + p + "=>" + body + ";", "var " + f + "=(" + p + ")=>" + body + ";", "var " + f + ";" + f + "=" + p + "=>" + body + ";"})
+			return decl + "for(" + r.Pick([]string{"var ", ""}) + v + "=0;" + v + "<2;" + v + "++){h(" + g.nextSite() + "," + f + "(" + argv + "));" + g.stmt() + "}"
 		}
 		return "var " + v + ";for(" + v + "=(\"a\" in {a:1})?0:1;" + v + "<2;" + v + "++)" + g.body()
 	case 21, 22:
